@@ -45,11 +45,12 @@ theorem h264Run_safe (pkts : List (Nat × Nat × Bool × Array UInt8)) (st : H26
     · intro _ _; trivial
 
 theorem udptlRecv_safe (buf : Array UInt8) (b : Buf) :
-    safe (· ≤ 17 * buf.size) (udptlRecv buf) (fun _ _ n' => n' ≤ 17 * buf.size) b 0 := by
+    safe (· ≤ 17 * buf.size + 1400) (udptlRecv buf) (fun _ _ n' => n' ≤ 17 * buf.size + 1400) b 0 := by
   unfold udptlRecv
+  simp only [RtcModel.Generated.c07UdptlMaxDatagram_val]
   cur_auto
   rename_i pLen _ _ _ _ _
-  apply safe_loop (fun s b' n' => b' = b ∧ 4 ≤ s.1 ∧ s.1 ≤ buf.size ∧ n' + 16 ≤ 17 * s.1) (fun s _ => buf.size - s.1)
+  apply safe_loop (fun s b' n' => b' = b ∧ 4 ≤ s.1 ∧ s.1 ≤ buf.size ∧ n' + 16 ≤ 17 * s.1 + 1400) (fun s _ => buf.size - s.1)
   · intro s b' n' hinv
     obtain ⟨hb, h1, h2, h3⟩ := hinv
     subst hb
